@@ -25,6 +25,8 @@
 #include "parsec/data_dist/matrix/vector_two_dim_cyclic.h"
 #include <mpi.h>
 #include <setjmp.h>
+#include <signal.h>
+#include <sys/time.h>
 #include "kit.h"
 
 enum { F_BC, F_KCYC, F_KVIEW, F_SYM, F_SYMSUB, F_BAND, F_SYMBAND, F_TAB, F_VEC, F_VECSUB, F_N };
@@ -94,6 +96,26 @@ void __assert_fail(const char *assertion, const char *file, unsigned int line, c
     n_assert_abandoned++;
     case_armed = 0;
     longjmp(case_jmp, 1);
+}
+
+/* ------------------------------------------------------------------ work-bounded watchdog for one library call
+ * ITIMER_VIRTUAL counts user CPU time consumed by this process, not wall-clock time: a constructor of a descriptor with
+ * at most a few hundred tiles that has burnt WATCHDOG_CPU_S seconds of CPU is not going to return.  Independent of
+ * machine load.  Used by the vector-diag probe (the recorded finding is a non-terminating loop in the constructor). */
+#define WATCHDOG_CPU_S 20
+static void on_cpu_budget(int sig) {
+    (void)sig;
+    static const char msg1[] = "VF {\"type\":\"violation\",\"key\":\"init-does-not-terminate\",\"text\":\"parsec_vector_two_dim_cyclic_init consumed the CPU budget of one call (20 s of user time) without returning | ";
+    static const char msg2[] = "\"}\n";
+    if (write(1, msg1, sizeof msg1 - 1) < 0) _exit(1);
+    if (cur_case) { const char *d = cur_case->desc; size_t n = strlen(d); if (write(1, d, n) < 0) _exit(1); }
+    if (write(1, msg2, sizeof msg2 - 1) < 0) _exit(1);
+    _exit(1);
+}
+static void watchdog(int on) {
+    struct itimerval it; memset(&it, 0, sizeof it); if (on) it.it_value.tv_sec = WATCHDOG_CPU_S;
+    if (on) signal(SIGVTALRM, on_cpu_budget);
+    setitimer(ITIMER_VIRTUAL, &it, NULL);
 }
 
 /* ------------------------------------------------------------------ case generation */
@@ -387,13 +409,16 @@ int main(int argc, char **argv)
     case_t c;
     if (vf_has_flag(argc, argv, "--probe-vec-diag")) {
         /* single explicit case: vector diag on a P x Q grid (the driver uses it for the grids the generator down-weights) */
+        fam = "vec";
         gen_case(&c, F_VEC, seed, 0, 1);
         c.sub = PARSEC_VECTOR_DISTRIB_DIAG; c.P = (int)vf_arg_ll(argc, argv, "--P", 1); c.Q = (int)vf_arg_ll(argc, argv, "--Q", 2); c.R = c.P * c.Q;
         snprintf(c.desc, sizeof c.desc, "family=vec sub=%d(diag) P=%d Q=%d mb=%d lm=%d i=%d m=%d probe", c.sub, c.P, c.Q, c.mb, c.lm, c.i, c.m);
         fprintf(stderr, "VFAT 0 %s\n", c.desc); fflush(stderr);
         cur_case = &c;
+        watchdog(1);
         if (0 == setjmp(case_jmp)) { case_armed = 1; run_case(&c, 1); }
         case_armed = 0;
+        watchdog(0);
     } else for (long k = start; k < cases; k++) {
         gen_case(&c, f, seed, k, known_weight);
         fprintf(stderr, "VFAT %ld %s\n", k, c.desc); fflush(stderr);
